@@ -46,3 +46,17 @@ PROPS["C10"] = {
     "selftest": "ios_acl",
     "runs": [{"entry": IOS_ACL, "quick": {"N": "2", "K": "8", "cut": "1"}, "thorough": {"N": "3", "K": "7", "cut": "1"}, "covers": ["resumed after cut"]}],
 }
+
+PROPS["C18"] = {
+    "explanation": "Bounded symbolic execution (gosx) of the real cisco.(*Config).MergeSpoc -> mergeCmds, mergeRefs, mergeASAACLs / mergeIOSACLs on three parts (IPv4, IPv6, raw with [APPEND] split) whose ACL lines are solver-chosen; the merged ACL is compared entry by entry (pointer identity of the parts' commands) with the order rules of the statement: every entry exactly once, order inside each part preserved, unmarked raw entries before all Netspoc entries, APPEND entries behind the last Netspoc permit and in front of the trailing Netspoc deny run; an aborted merge must print ERROR>>>.",
+    "bounds": {"quick": "ASA and IOS, one ACL, each part 0..3 lines from a menu of 7 (permit/deny, any6 deny, tcp), every [APPEND] split position",
+               "thorough": "each part 0..4 lines"},
+    "outside": "Linux chains, PAN-OS rulebases and NSX policies (not yet harnessed); object-groups and crypto/tunnel objects in raw files; name clashes; more than one ACL",
+    "selftest": "(asa|ios)_raw", "selftest_thorough": "_raw|asa_ipv6",
+    "runs": [
+        {"entry": M + "/pkg/asa.VerifMergeACL", "quick": {"N": "3"}, "thorough": {"N": "4"},
+         "covers": ["APPEND entry merged", "Netspoc ACL without permit line", "raw part with [APPEND] section"]},
+        {"entry": M + "/pkg/ios.VerifMergeACL", "quick": {"N": "3"}, "thorough": {"N": "4"},
+         "covers": ["APPEND entry merged", "Netspoc ACL without permit line", "raw part with [APPEND] section"]},
+    ],
+}
